@@ -191,6 +191,10 @@ class Gen(object):
         if self.p["int_ids"] and self.r.random() < 0.3:
             ph = self.r.randrange(5)
         msg = {"type": "add", "phase": ph, "body": "%02x" % self.r.randrange(256) * self.r.randrange(1, 4)}
+        if self.r.random() < 0.15 and getattr(self, "last_add", None):
+            # a retransmission: the same phase and body as an earlier add (possibly from another connection of that side)
+            msg["phase"], msg["body"] = self.last_add
+        self.last_add = (msg["phase"], msg["body"])
         if self.p["big_ints"] and self.r.random() < 0.3:
             # JSON integers at and beyond the edge of a signed 64-bit integer
             big = [2 ** 63, -2 ** 63 - 1, 2 ** 64 - 1, 2 ** 63 - 1, -2 ** 63, 10 ** 30]
